@@ -60,7 +60,7 @@ class Plane:
         :rtype: Plane
         """
         
-        p = base.ismatrix(p, (3,3))
+        p = base.getmatrix(p, (3,3))
         v1 = p[:,0]
         v2 = p[:,1]
         v3 = p[:,2]
@@ -68,7 +68,7 @@ class Plane:
         # compute a normal
         n = np.cross(v2-v1, v3-v1)
         
-        return cls(n, v1)
+        return cls.PN(v1, n)
         
     # line and point
     # 3 points
